@@ -271,7 +271,7 @@ func TestScenes(t *testing.T) {
 	rec := ev.Get()
 	rapid.Check(t, func(t *rapid.T) {
 		r := rapid.SampledFrom(renderers).Draw(t, "renderer")
-		S := rapid.SampledFrom([]float64{1, 10}).Draw(t, "scale")
+		S := rapid.SampledFrom([]float64{1, 10, 1, 10, 1e-7, 1e-4, 1e4}).Draw(t, "scale")
 		n := shape.Gen3(t, shape.Opts{S: S, Depth: rapid.IntRange(0, 2).Draw(t, "depth"), Grammar: shape.Lipschitz, NoBlend: true, NoPoly: true, SolidUnion2: true})
 		b, err := shape.Build(n)
 		if err != nil {
